@@ -34,7 +34,7 @@ def sequences(k, maxlen):
 
 
 SITE_OF = {"implements": "type", "constructor": "type", "immutable": "type", "testonly": "type", "mutable": "field", "packageonly": "type", "ignore": "ignore"}
-EXTRA_SITES = ["func", "method", "field", "group", "trailing", "local", "free", "var", "plainfield", "ignore", "type"]
+EXTRA_SITES = ["func", "method", "field", "group", "group2", "groupdoc", "groupmixed", "trailing", "local", "free", "var", "plainfield", "ignore", "type"]
 
 
 def decl_for(i, c, site):
@@ -48,6 +48,12 @@ def decl_for(i, c, site):
         return ["// @immutable", "type S%d struct {" % i, "\t" + c, "\tF, G int", "}", ""]
     if site == "group":
         return ["type (", "\t" + c, "\tG%d struct{}" % i, ")", ""]
+    if site == "group2":      # the second member has no doc of its own and must not inherit the first member's
+        return ["type (", "\t" + c, "\tG%d struct{}" % i, "", "\tH%d struct{}" % i, ")", ""]
+    if site == "groupdoc":    # the group's doc belongs to every member without a doc of its own
+        return [c, "type (", "\tG%d struct{}" % i, "\tH%d struct{}" % i, ")", ""]
+    if site == "groupmixed":  # a member's own (plain) doc takes precedence over the group's
+        return [c, "type (", "\t// plain doc of the member", "\tG%d struct{}" % i, "\tH%d struct{}" % i, ")", ""]
     if site == "ignore":
         return [c, "var V%d = 0" % i, ""]
     if site == "trailing":
@@ -163,7 +169,7 @@ def run(ctx):
         import re
         ids = set()
         for it in diff_items:
-            for m in re.finditer(r"[TFMSGVXLYWP](\d+)", it):
+            for m in re.finditer(r"[TFMSGHVXLYWP](\d+)", it):
                 ids.add(int(m.group(1)))
         culprits = [{"case": i, "comment": cases[i][0], "site": cases[i][1], "keyword": cases[i][2]} for i in sorted(ids) if i < len(cases)][:5]
         if key[0] == "I":
@@ -213,7 +219,7 @@ def run(ctx):
     rep.cov["exhaustive"] = True
     rep.cov["rule"] = ("comment lines = '//' + ALL token sequences of length <= %d over a 20-token alphabet per keyword (blanks, //, the keyword, near-keywords in other case / longer / split, another keyword, "
                        ", . & ; - and argument shapes), enumerated exhaustively at the keyword's attachment site; sampled longer sequences; every argument shape x lead x tail at EVERY site "
-                       "(type, func, method, field of @immutable struct, grouped spec, var for @ignore; inert: trailing, local declaration, detached, var doc, field of plain struct); two keywords on one "
+                       "(type, func, method, field of @immutable struct, grouped spec - also a group of two where the second member has no doc, a documented group, a documented group with a documented member -, var for @ignore; inert: trailing, local declaration, detached, var doc, field of plain struct); two keywords on one "
                        "line, commented-out annotations, block comments; fuzzed strings. Compared: the full annotation summary and the @ignore markers of each package. Plus %d strings (arbitrary bytes, "
                        "newlines, invalid UTF-8, leading blanks) through Go's regexp vs Regex.v with submatch indices. non-trivial = distinct recognised annotation / matching string" % (maxlen, nre))
     rep.cov["input_distribution"] = dist
